@@ -24,8 +24,9 @@ func (f *Flooder) VerifC29Cleanup(now time.Time) {
 
 // VerifC29Age moves every recorded instant of the sleep-command machinery d into the past
 // (the cache entries' SeenAt and the pending wake's storage time): the harness's way of letting
-// d of time pass without waiting (command timestamps are shifted by the harness itself).
-func (f *Flooder) VerifC29Age(d time.Duration) {
+// d of time pass without waiting. The stored pending wake command carries a timestamp too;
+// `restamp` (may be nil) returns the same command stamped d earlier (re-signed by the harness).
+func (f *Flooder) VerifC29Age(d time.Duration, restamp func(*protocol.WakeCommand) *protocol.WakeCommand) {
 	f.sleepCmdMu.Lock()
 	for _, e := range f.sleepCmdSeenCache {
 		e.SeenAt = e.SeenAt.Add(-d)
@@ -34,6 +35,9 @@ func (f *Flooder) VerifC29Age(d time.Duration) {
 	f.pendingWakeMu.Lock()
 	if f.pendingWakeCmd != nil {
 		f.pendingWakeAt = f.pendingWakeAt.Add(-d)
+		if restamp != nil {
+			f.pendingWakeCmd = restamp(f.pendingWakeCmd)
+		}
 	}
 	f.pendingWakeMu.Unlock()
 }
